@@ -396,7 +396,7 @@ func num(v interface{}) (float64, bool) {
 
 // Std is the standard deterministic function set:
 // filter functions  twice (numbers ×2, strings doubled, arrays doubled, error otherwise),
-// ident, wrap (v -> [v]), nostr (error on strings, identity otherwise);
+// ident, wrap (v -> [v]), nostr (error on strings, identity otherwise), pick (numbers > 1 of an array; a nil slice when none);
 // aggregates  count, first (error on empty), echo (a copy of its argument), keep (its argument itself), sum (error unless all numbers).
 func Std() FuncSet {
 	return FuncSet{
@@ -420,6 +420,21 @@ func Std() FuncSet {
 					return nil, errors.New("nostr: string")
 				}
 				return v, nil
+			},
+			// pick keeps the numbers > 1 of an array, built the usual Go way (var out; append): the result is a NIL
+			// slice when nothing is kept - an array a decoder never produces; other values pass unchanged
+			"pick": func(v interface{}) (interface{}, error) {
+				l, ok := v.([]interface{})
+				if !ok {
+					return v, nil
+				}
+				var out []interface{}
+				for _, x := range l {
+					if f, ok := num(x); ok && f > 1 {
+						out = append(out, x)
+					}
+				}
+				return out, nil
 			},
 		},
 		Aggr: map[string]func([]interface{}) (interface{}, error){
